@@ -34,24 +34,36 @@ Definition out_res (o : out) : list N :=
 (* how many Acknowledge frames the read added *)
 Definition new_acks (s s' : st) : nat := length (wrs s') - length (wrs s).
 
-Definition fstep (s : fsys) (l : list N) : fsys * list N :=
+(* the labels of a single-flow script *)
+Inductive flab :=
+| FWrite (e : N) (d : list N)
+| FRead (e n : N)
+| FShut (e : N)
+| FDel (d : N).
+
+Definition parse_flab (l : list N) : option flab :=
   match l with
-  | 13 :: e :: _sid :: r =>
-      match parse_lp r with
-      | Some (d, []) =>
-          if e =? 0 then
-            if a_alive s then
-              let '(s', o) := step (f0 s) (Write d) in
-              (mkF s' (f1 s) (la s ++ match o with OWritten _ => [LData 0] | _ => [] end) (lb s) (a_alive s) (b_alive s), out_res o)
-            else (s, [3])
-          else
-            if b_alive s then
-              let '(s', o) := step (f1 s) (Write d) in
-              (mkF (f0 s) s' (la s) (lb s ++ match o with OWritten _ => [LData 1] | _ => [] end) (a_alive s) (b_alive s), out_res o)
-            else (s, [3])
-      | _ => (s, MALFORMED)
-      end
-  | [15; e; _sid; n] =>
+  | 13 :: e :: _sid :: r => match parse_lp r with Some (d, []) => Some (FWrite e d) | _ => None end
+  | [15; e; _sid; n] => Some (FRead e n)
+  | [16; e; _sid] => Some (FShut e)
+  | [18; d] => Some (FDel d)
+  | _ => None
+  end.
+
+Definition fstep_l (s : fsys) (l : flab) : fsys * list N :=
+  match l with
+  | FWrite e d =>
+      if e =? 0 then
+        if a_alive s then
+          let '(s', o) := step (f0 s) (Write d) in
+          (mkF s' (f1 s) (la s ++ match o with OWritten _ => [LData 0] | _ => [] end) (lb s) (a_alive s) (b_alive s), out_res o)
+        else (s, [3])
+      else
+        if b_alive s then
+          let '(s', o) := step (f1 s) (Write d) in
+          (mkF (f0 s) s' (la s) (lb s ++ match o with OWritten _ => [LData 1] | _ => [] end) (a_alive s) (b_alive s), out_res o)
+        else (s, [3])
+  | FRead e n =>
       if e =? 0 then
         if a_alive s then
           let '(s', o) := step (f1 s) (Read n) in
@@ -62,7 +74,7 @@ Definition fstep (s : fsys) (l : list N) : fsys * list N :=
           let '(s', o) := step (f0 s) (Read n) in
           (mkF s' (f1 s) (la s) (lb s ++ repeat (LAck 0) (new_acks (f0 s) s')) (a_alive s) (b_alive s), out_res o)
         else (s, [3])
-  | [16; e; _sid] =>
+  | FShut e =>
       if e =? 0 then
         if a_alive s then
           let was := fin (f0 s) in
@@ -75,7 +87,7 @@ Definition fstep (s : fsys) (l : list N) : fsys * list N :=
           let '(s', _) := step (f1 s) Shutdown in
           (mkF (f0 s) s' (la s) (lb s ++ (if was then [] else [LData 1])) (a_alive s) (b_alive s), [0])
         else (s, [3])
-  | [18; d] =>
+  | FDel d =>
       match (if d =? 0 then la s else lb s) with
       | [] => (s, [3])
       | m :: rest =>
@@ -89,7 +101,12 @@ Definition fstep (s : fsys) (l : list N) : fsys * list N :=
           | _ => (s, [0])
           end
       end
-  | _ => (s, MALFORMED)
+  end.
+
+Definition fstep (s : fsys) (l : list N) : fsys * list N :=
+  match parse_flab l with
+  | Some x => fstep_l s x
+  | None => (s, MALFORMED)
   end.
 
 Fixpoint fsteps (fuel : nat) (s : fsys) (l : list N) : list N :=
